@@ -98,6 +98,10 @@ def run(repo, res):
                   '%s statements are not recorded by the extractor: a later assignment creates a local '
                   "binding in the inner scope and masks the owner's binding (E02 on reads before it)" % cls,
                   sample='%s names recorded in the scope' % cls)
+        res.check('C01-R2', '%s declaration touches only its own block' % cls, not r['foreign'], r['line'][0], r['line'][1],
+                  'a %s statement changes the name tables of another scope (%s): bindings of that name made there - e.g. at module '
+                  'level after the function - are filed away from the region they are made in and reads next to them get E02'
+                  % (cls.lower(), sorted({f for _v, f in r['foreign']})), sample='%s changes only the declaring scope' % cls)
 
     # ---- R5 continuity -------------------------------------------------------------
     crecs = R.continuity_records(repo)
